@@ -12,7 +12,7 @@ LEVEL = "exploration"
 DECIDING = ["C07.grid3d", "C07.grid4d"]
 RULE = ("every (algorithm, N): ico, cube3D, randomS for N in 1..60 plus level edges (quick) / every N in 1..700 (thorough); cube4D, randomQ for "
         "N in 1..40 plus 41..43 (quick) / every N in 1..140 plus 271..273 (thorough); fulldiv 8, 40 (quick) + 272 (thorough) and its rejected "
-        "sizes; zero grids and N=1 requested by name. Non-trivial = N>=2; distinct by (algorithm, N)")
+        "sizes; zero grids and N=1 requested by name; the selection function under hostile inputs; grids re-judged after the package's own consumers (FullGrid.get_body_rotations etc.) have used them. Non-trivial = N>=2; distinct by (algorithm, N)")
 ASSUMPTIONS = ["unit norm to 1e-9, distinctness = chord > 1e-9", "fulldiv_2080 (level-3 hypercube) is beyond the exploration bound and not run"]
 EXHAUSTIVE = {"quick": False, "thorough": False}
 MIN_NONTRIVIAL = {"quick": 200, "thorough": 2000}
@@ -149,6 +149,26 @@ def drive_hemisphere(n_batches, seed):
         REC.nontrivial_case(("hemisphere", seed, b))
 
 
+def drive_consumers():
+    """history: the package's own consumers of a rotation grid (FullGrid.get_body_rotations, the full-grid array, the Voronoi getters)
+    run first, then the same predicates are evaluated again on the live grid object"""
+    from molgri.space.fullgrid import FullGrid
+    for b in ("cube4D_8", "randomQ_9", "fulldiv_8", "5", "cube4D_13"):
+        REC.begin_case({"kind": "grid after its consumers", "b": b}, cls="grid after its consumers")
+        try:
+            fg = FullGrid(b, "4", "[0.1, 0.2]")
+            fg.get_body_rotations()
+            fg.get_full_grid_as_array()
+            fg.get_adjacency_of_orientation_grid()
+            fg.b_rotations.get_spherical_voronoi().get_voronoi_volumes()
+            grid4d_is_N_unique_rotations(fg.b_rotations.algorithm_name, fg.b_rotations.N, fg.b_rotations)
+            grid3d_is_N_distinct_unit_points(fg.get_position_grid().get_o_grid().algorithm_name, fg.get_position_grid().get_o_grid().N,
+                                             fg.get_position_grid().get_o_grid())
+            REC.nontrivial_case(("consumers", b))
+        except Exception as e:
+            REC.crashed("C07.call_raised", e)
+
+
 def install():
     import molgri.space.utils as U
     attach.ensure(U, "hemisphere_quaternion_set", hemisphere_set_is_canonical)
@@ -224,6 +244,7 @@ def run_shard(spec):
     if spec.get("by_name"):
         by_name(F3, F4)
         drive_hemisphere(10 if spec["tier"] == "quick" else 100, spec.get("seed", 0))
+        drive_consumers()
 
 
 def replay(case):
